@@ -23,7 +23,7 @@ TITLE = 'strict vs non-strict'
 LEVEL = 'exploration'
 SHARDS = {'quick': 16, 'thorough': 16}
 FLOOR = {'quick': 800, 'thorough': 10000}
-REQUIRED_MONITORS = {'valid-pairs-compared': 1000, 'strict-rejections-located': 800, 'deferred-raised': 300, 'deferred-dead': 300, 'same-text-planted-twice': 100, 'empty-expression-sites': 100, 'line-ending-sites': 200}
+REQUIRED_MONITORS = {'valid-pairs-compared': 1000, 'strict-rejections-located': 800, 'deferred-raised': 300, 'deferred-dead': 300, 'same-text-planted-twice': 100, 'empty-expression-sites': 100, 'line-ending-sites': 200, 'location-history-steps': 300}
 RULE = ('valid layer: a case = (program, binding table), strict and non-strict renderings compared; planted layer: a case = '
         '(program, planted slot, planting form in {alone, first pipe alternative, later pipe alternative, under not:, string: '
         'part, ${} part}, binding table); non-trivial: valid iff >=1 expression, planted always; distinct by (site kind, '
@@ -289,6 +289,7 @@ def run(ctx):
     monitors.install(ctx, tokalg=False)
     layer_empty(ctx)
     layer_line_endings(ctx)
+    layer_location_history(ctx, 6 if ctx.quick else 60)
     rng = ctx.rng
     n = 100 if ctx.quick else 1800
     maxdepth = 1 if ctx.quick else 2
@@ -448,6 +449,41 @@ def layer_empty(ctx):
         if got != want:
             ctx.violation('empty-expression-' + ('raised-iff-reached-violated' if got[0] != want[0] else 'deferred-error-differs-from-strict-error'),
                           'template %r (%s): strict error %r; non-strict rendering gave %r, expected %r' % (src, wname, strict, got, want), replay)
+
+
+def layer_location_history(ctx, rounds):
+    """Histories of templates of EQUAL length but different line structure, rendered one after the other (objects
+    dropped in between): each deferred error must be located in its own source, like the strict error is."""
+    import gc
+    from chameleon import PageTemplate
+    from chameleon.exc import ExpressionError
+    rng = ctx.rng
+    K = 7
+    for rnd in range(rounds):
+        bad = rng.choice(BADS[:3])
+        order = list(range(K))
+        rng.shuffle(order)
+        for i in order:
+            src = '\n' * i + ' ' * (K - i) + '<p>x</p>' + '\n' * (K - i) + ' ' * i + '<b>${%s}</b>' % bad
+            off = src.index(bad)
+            want = (bad.strip(), off, (src.count('\n', 0, off) + 1, off - (src.rfind('\n', 0, off) + 1)))
+            got = []
+            for strict in (True, False):
+                try:
+                    PageTemplate(src, strict=strict)()
+                    got.append('no-error')
+                except ExpressionError as e:
+                    got.append((str(e.token), e.offset, tuple(e.location)))
+                    del e
+                except Exception as e:
+                    got.append('other %s' % type(e).__name__)
+                if rng.random() < .3:
+                    gc.collect()
+            ctx.mon('location-history-steps')
+            ctx.case(key=('location-history', i, bad), nontrivial=True)
+            if got != [want, want]:
+                ctx.violation('location-history-differs', 'template %r (one of %d equally long templates rendered in turn): strict / deferred '
+                              'error %r, expected %r' % (src, K, got, want), {'kind': 'planted', 'src': src, 'text': bad})
 
 
 def layer_line_endings(ctx):
